@@ -93,15 +93,11 @@ def check(repo: Repo, run: Run) -> None:
            all_m == none_m and len({start_m, end_m, all_m}) == 3,
            f"START->{start_m}, END->{end_m}, ALL->{all_m}, NONE->{none_m}: the four qualifiers are not mapped to "
            f"start / end / single / single", facts={"actions": actions})
-    import ast as _ast
-    fresh = set()
-    for st_ in _ast.walk(M["__init__"]):
-        if isinstance(st_, _ast.Assign) and len(st_.targets) == 1 and isinstance(st_.targets[0], _ast.Attribute) \
-                and isinstance(st_.targets[0].value, _ast.Name) and st_.targets[0].value.id == "self":
-            v = st_.value
-            if (isinstance(v, _ast.Dict) and not v.keys) or \
-                    (isinstance(v, _ast.Call) and isinstance(v.func, _ast.Name) and v.func.id == "dict" and not v.args):
-                fresh.add(st_.targets[0].attr)
+    def _empty_dict(v: T) -> bool:
+        return (v.op == "dict" and not v.a[0]) or (v.op == "call" and v.a[0] == T("builtin", ("dict",)) and not v.a[1] and not v.a[2])
+    stores = [e for e in init.effects if e.kind == "attr-store" and (e.path or e.base) == SELF and e.value is not None
+              and _empty_dict(e.value) and not e.pc and e.alias is None]
+    fresh = {e.key for e in stores}          # an alias or a chained assignment `self.a = self.b = {}` is not fresh
     for t in ("on_going_events", "on_going_traces"):
         run.ob("K6", MOD, "TracesParser.__init__", f"{t} is a fresh dict", t in created and t in fresh,
                f"self.{t} is not created as its own empty dict in __init__: the two pairing domains share windows",
